@@ -9,7 +9,7 @@ use crate::visit::veq;
 use serde_json::json;
 use tls_parser::*;
 
-pub const RULE: &str = "serializable values (ClientHello over all versions / session ids 0..32 / 0..32767 ciphers / 0..255 compressions / extension block None, empty, opaque up to 65535; ServerHello for 0300 (no extensions), 0301..0303; draft-18 hello; ClientKeyExchange Unknown/Dh/Ecdh; Finished; HelloRequest; ChangeCipherSpec; records of 1..n such messages) built as crate values, serialized by the crate, compared BYTE-EXACT with the independent reference encoding (which fixes every length field), parsed back (whole input consumed, value equals the documented normal form) and re-serialized; values obtained by parsing generated records; SNI / max-fragment-length / supported-groups through gen_tls_extension(s) and the extension parsers; every unsupported message / extension variant must give GenError::NotYetImplemented. distinct_nontrivial = distinct (family, kind, presence flags, length classes) tuples";
+pub const RULE: &str = "serializable values (ClientHello over all versions / session ids 0..32 / 0..32767 ciphers / 0..255 compressions / extension block None, empty, opaque up to 65535; ServerHello for 0300 (no extensions), 0301..0303; draft-18 hello; ClientKeyExchange Unknown/Dh/Ecdh; Finished; HelloRequest; ChangeCipherSpec; records of 1..n such messages) built as crate values, serialized by the crate, compared BYTE-EXACT with the independent reference encoding (which fixes every length field), parsed back (whole input consumed, value equals the documented normal form) and re-serialized; the same bytes demanded from every other public entry point (gen_tls_message, gen_tls_plaintext, the per-message gen_tls_* functions, TlsMessageHandshake::serialize) writing after a prefix already in the writer; values obtained by parsing generated records; SNI / max-fragment-length / supported-groups through gen_tls_extension(s) and the extension parsers; every unsupported message / extension variant must give GenError::NotYetImplemented. distinct_nontrivial = distinct (family, kind, presence flags, length classes) tuples";
 pub const ASSUMPTIONS: &[&str] = &[
     "values outside wire limits (session id > 32 bytes, > 32767 ciphers, random != 32 bytes, record payload > 16640 bytes, Some(empty) session id, SSLv3 ServerHello carrying extensions) are outside the quantifier and not generated",
     "normal form: absent extension block is written as 00 00 and reads back as Some(empty) (for SSLv3 ServerHello, which has no block, None and Some(empty) are both accepted); Dh/Ecdh ClientKeyExchange read back as Unknown(body)",
@@ -87,6 +87,31 @@ fn kind(m: &AMsg) -> &'static str {
     }
 }
 
+/// the serializer's other public entry points for the same value: `gen_tls_message`, the per-message
+/// `gen_tls_*` function and `TlsMessageHandshake::serialize`, each writing after a 2-byte prefix already
+/// in the writer (output is appended, never depends on what the writer holds)
+fn direct_entries(v: &TlsMessage) -> Vec<(&'static str, Result<Vec<u8>, GenError>)> {
+    let pre = || vec![0xA5u8, 0x5A];
+    let mut o: Vec<(&'static str, Result<Vec<u8>, GenError>)> = vec![("gen_tls_message", gen_simple(gen_tls_message(v), pre()))];
+    match v {
+        TlsMessage::ChangeCipherSpec => o.push(("gen_tls_changecipherspec", gen_simple(gen_tls_changecipherspec(), pre()))),
+        TlsMessage::Handshake(h) => {
+            o.push(("TlsMessageHandshake::serialize", h.serialize().map(|b| [&pre()[..], &b[..]].concat())));
+            match h {
+                TlsMessageHandshake::ClientHello(c) => o.push(("gen_tls_clienthello", gen_simple(gen_tls_clienthello(c), pre()))),
+                TlsMessageHandshake::ServerHello(c) => o.push(("gen_tls_serverhello", gen_simple(gen_tls_serverhello(c), pre()))),
+                TlsMessageHandshake::ServerHelloV13Draft18(c) => o.push(("gen_tls_serverhellodraft18", gen_simple(gen_tls_serverhellodraft18(c), pre()))),
+                TlsMessageHandshake::ClientKeyExchange(c) => o.push(("gen_tls_clientkeyexchange", gen_simple(gen_tls_clientkeyexchange(c), pre()))),
+                TlsMessageHandshake::HelloRequest => o.push(("gen_tls_hellorequest", gen_simple(gen_tls_hellorequest(), pre()))),
+                TlsMessageHandshake::Finished(d) => o.push(("gen_tls_finished", gen_simple(gen_tls_finished(d), pre()))),
+                _ => {}
+            }
+        }
+        _ => {}
+    }
+    o
+}
+
 /// full contract for one message value: serialize == reference bytes; parse consumes all and gives
 /// the normal form; re-serialize reproduces the bytes
 fn msg_case(ctx: &mut Ctx, m: &AMsg, label: &str) {
@@ -118,6 +143,19 @@ fn msg_case(ctx: &mut Ctx, m: &AMsg, label: &str) {
             json!({"kind": kind(m), "serialized_hex": hex_short(&bytes), "reference_hex": hex_short(&want), "value": format!("{:.300?}", v)}),
         );
         return;
+    }
+    if let Some(entries) = ctx.guarded("gen_tls_* entry points", &want, || direct_entries(&v)) {
+        for (name, res) in entries {
+            ctx.eval();
+            ctx.count("entry.calls");
+            let good = matches!(&res, Ok(b) if b.len() == want.len() + 2 && b[..2] == [0xA5, 0x5A] && b[2..] == want[..]);
+            if !good {
+                ctx.violation(
+                    format!("c09:entry-point-differs:{}:{}", name, kind(m)),
+                    json!({"entry_point": name, "kind": kind(m), "result": format!("{:.300?}", res.map(|b| hex_short(&b))), "reference_hex": hex_short(&want), "writer_prefix": "a55a"}),
+                );
+            }
+        }
     }
     // parse back inside a record of the right type (messages are parsed per content type)
     let nf = normal_form(m);
@@ -321,6 +359,14 @@ pub fn run(ctx: &mut Ctx) {
             ctx.eval();
             if r2.serialize().ok().as_deref() != Some(&want[..]) {
                 ctx.violation("c09:record:output-depends-on-hdr-len".into(), json!({"hdr_len": hl, "messages": msgs.len(), "reference_hex": hex_short(&want)}));
+            }
+        }
+        {
+            let res = gen_simple(gen_tls_plaintext(&rec), vec![0xA5u8, 0x5A]);
+            ctx.eval();
+            ctx.count("entry.calls");
+            if !matches!(&res, Ok(b) if b.len() == want.len() + 2 && b[..2] == [0xA5, 0x5A] && b[2..] == want[..]) {
+                ctx.violation("c09:entry-point-differs:gen_tls_plaintext".into(), json!({"result": format!("{:.300?}", res.map(|b| hex_short(&b))), "reference_hex": hex_short(&want), "writer_prefix": "a55a"}));
             }
         }
         match rec.serialize() {
